@@ -53,14 +53,97 @@ def _gen_scenario(rng, max_ops: int):
     return cap, pol, ops[:max(n, 1)]
 
 
-def _run_impl(cap: int, pol: str, ops, payload_base: int = 0):
+def _make_rx(way: dict):
+    """Build a receiver the way `way` says: {"pos": [...], "kw": {...}}; "@old" / "@new" stand for the policy constants."""
+    from qmi.core.pubsub import QMI_SignalReceiver as R
+
+    def val(v):
+        return R.DISCARD_OLD if v == "@old" else (R.DISCARD_NEW if v == "@new" else v)
+    return R(*[val(v) for v in way.get("pos", [])], **{k: val(v) for k, v in way.get("kw", {}).items()})
+
+
+def _ctor_facts():
+    """What the live class says about its constructor: parameter names, defaults, and every MAX_* / DEFAULT_* integer
+    constant of pubsub.py (module and class level)."""
+    import inspect
+    from qmi.core import pubsub
+    R = pubsub.QMI_SignalReceiver
+    params = [p for p in inspect.signature(R.__init__).parameters.values() if p.name != "self"]
+    consts = {}
+    for owner in (pubsub, R):
+        for k, v in vars(owner).items():
+            if (k.startswith("MAX_") or k.startswith("DEFAULT_") or "_MAX_" in k or "_DEFAULT_" in k) and isinstance(v, int) and not isinstance(v, bool) and v > 0:
+                consts[k] = v
+    live_default = R()._queue.maxlen
+    return params, consts, live_default
+
+
+def _ctor_ways():
+    """Every way the constructor allows to ask for a capacity and a policy.  Returns a list of
+    (way, configured capacity, policy, label); the configured capacity of a defaulted argument is the documented default
+    (the integer default of the signature, else a DEFAULT_*QUEUE* constant, else what a default-constructed object has)."""
+    params, consts, live_default = _ctor_facts()
+    names = [p.name for p in params]
+    if len(names) < 2:
+        return [], live_default
+    cn, pn = names[0], names[1]
+    cdef = params[0].default
+    if isinstance(cdef, int) and not isinstance(cdef, bool):
+        documented = cdef
+    else:
+        named = [v for k, v in consts.items() if "QUEUE" in k and "DEFAULT" in k]
+        documented = named[0] if named else live_default
+    pdef = params[1].default
+    from qmi.core.pubsub import QMI_SignalReceiver as R
+    pol_default = "new" if pdef == R.DISCARD_NEW else "old"
+    caps = sorted({1, 2, 3, documented, live_default} | set(consts.values()))
+    caps = [c for c in caps if c <= 50000]
+    ways = []
+    # all arguments defaulted / only the policy given
+    ways.append(({"pos": [], "kw": {}}, documented, pol_default, "R()"))
+    for pol in ("old", "new"):
+        ways.append(({"pos": [], "kw": {pn: "@" + pol}}, documented, pol, f"R({pn}={pol})"))
+        for c in caps:
+            ways.append(({"pos": [c, "@" + pol], "kw": {}}, c, pol, f"R({c}, {pol})"))
+            ways.append(({"pos": [], "kw": {cn: c, pn: "@" + pol}}, c, pol, f"R({cn}={c}, {pn}={pol})"))
+            ways.append(({"pos": [c], "kw": {pn: "@" + pol}}, c, pol, f"R({c}, {pn}={pol})"))
+        if cdef is None:
+            ways.append(({"pos": [None, "@" + pol], "kw": {}}, documented, pol, f"R(None, {pol})"))
+            ways.append(({"pos": [], "kw": {cn: None, pn: "@" + pol}}, documented, pol, f"R({cn}=None, {pn}={pol})"))
+    for c in caps:
+        ways.append(({"pos": [c], "kw": {}}, c, pol_default, f"R({c})"))
+        ways.append(({"pos": [], "kw": {cn: c}}, c, pol_default, f"R({cn}={c})"))
+    return ways, live_default
+
+
+def _rle(ops):
+    out = []
+    for o in ops:
+        if out and out[-1][0] == o:
+            out[-1][1] += 1
+        else:
+            out.append([o, 1])
+    return out
+
+
+def _unrle(rle):
+    return [o for o, n in rle for _ in range(n)]
+
+
+def _overrun_ops(cap: int, k: int):
+    """fill to the configured capacity, overrun it by k, read, overrun again, read"""
+    return (["recv"] * (cap + k) + ["len", "get", "get", "len"] + ["recv"] * 3 + ["len", "ready", "get", "get", "get"]
+            + ["recv"] * 2 + ["get", "discard", "len", "recv", "get", "get"])
+
+
+def _run_impl(cap: int, pol: str, ops, payload_base: int = 0, way=None):
     """Run one scenario on the real receiver. Returns (lines, outputs, raw_trace)."""
     from qmi.core.pubsub import QMI_SignalReceiver, QMI_SignalMessage
     from qmi.core.messaging import QMI_MessageHandlerAddress
     from qmi.core.exceptions import QMI_TimeoutException
 
     policy = QMI_SignalReceiver.DISCARD_OLD if pol == "old" else QMI_SignalReceiver.DISCARD_NEW
-    rx = QMI_SignalReceiver(max_queue_length=cap, discard_policy=policy)
+    rx = _make_rx(way) if way is not None else QMI_SignalReceiver(max_queue_length=cap, discard_policy=policy)
     src = QMI_MessageHandlerAddress("ctxP", "pub")
     dst = QMI_MessageHandlerAddress("ctxR", "$pubsub")
     lines = [f"init {cap} {pol}"]
@@ -424,12 +507,66 @@ class C09(Prop):
                         case={"cap": cap, "policy": pol, "ops": ops, "base": base}))
                     break
 
+    def _constructors(self, ctx: Ctx, res: Result):
+        """Receivers built in every way the constructor allows, overrun by capacity + k arrivals, both policies; the
+        capacity is the configured one (explicit argument or documented default) and is compared with the live object."""
+        ways, live_default = _ctor_ways()
+        res.count("ctor_ways", len(ways))
+        res.extra["ctor_live_default_capacity"] = live_default
+        all_lines, all_outs, spans, fails = [], [], [], {}
+        for wi, (way, cap, pol, label) in enumerate(ways):
+            try:
+                rx = _make_rx(way)
+            except Exception as e:  # noqa
+                fails.setdefault(f"constructor-refuses:{type(e).__name__}", (way, cap, pol, label, [], f"{label} raised {e!r}"))
+                continue
+            live = rx._queue.maxlen
+            if live != cap:
+                fails.setdefault("capacity-not-as-configured", (way, cap, pol, label, [], f"{label}: configured maximum {cap}, the queue is bounded by {live}"))
+            big = cap > 64
+            for k in ((1,) if big and ctx.quick else (0, 1, 3)):
+                ops = _overrun_ops(cap, k)
+                lines, outs, trace = _run_impl(cap, pol, ops, 0, way=way)
+                defaulted = not any(isinstance(v, int) for v in list(way["pos"]) + list(way["kw"].values()))
+                if not big or defaulted or not ctx.quick:
+                    # (the list-based model needs ~1 s per 10^4-deep overrun: in the quick tier the explicit large
+                    # capacities are judged by the oracle only)
+                    spans.append((len(all_lines), len(lines), way, cap, pol, label, ops))
+                    all_lines += lines
+                    all_outs += outs
+                res.note_case(("ctor", label, k), nontrivial=True)
+                res.count("ctor_runs")
+                res.count("ctor_runs_capacity_from_default", 1 if not any(isinstance(v, int) for v in list(way["pos"]) + list(way["kw"].values())) else 0)
+                res.count("ctor_arrivals", cap + k + 6)
+                clause = _oracle(cap, pol, trace, 0)
+                if clause:
+                    fails.setdefault(clause, (way, cap, pol, label, ops, f"{label} (configured maximum {cap}, policy {pol}), {cap + k} arrivals then reads: {clause}"))
+        res.traces_validated += len(spans)
+        res.count("ctor_runs_diffed_with_model", len(spans))
+        for clause, (way, cap, pol, label, ops, detail) in fails.items():
+            res.failures.append(Failure(
+                signature=f"ctor:{clause}" if clause.startswith(("capacity-not-as-configured", "constructor-refuses")) else f"queue:{clause}",
+                summary=f"{detail}; ops={_rle(ops)[:8]}",
+                replay={"kind": "ctor", "way": way, "cap": cap, "policy": pol, "label": label, "rle": _rle(ops), "pre": clause}))
+        if all_lines:
+            model = LeanDriver(self.driver).run(all_lines)
+            k = diff_streams(all_lines, all_outs, model)
+            if k is not None:
+                for (start, ln, way, cap, pol, label, ops) in spans:
+                    if start <= k < start + ln:
+                        res.broken.append(Broken(
+                            "correspondence", "RecvQueue.step vs QMI_SignalReceiver built as " + label,
+                            f"line {k - start}: op={all_lines[k]!r} impl={all_outs[k]!r} model={model[k]!r}",
+                            case={"ctor": {"way": way, "cap": cap, "policy": pol, "label": label, "rle": _rle(ops)}}))
+                        break
+
     def correspondence(self, ctx: Ctx) -> Result:
         res = Result(rule="sequential: scenario = (capacity, policy, op list) generated from the seeded PRNG with bursts around the "
                           "capacity; non-trivial = contains both arrivals and reads; distinct by (cap, policy, ops).  concurrent: "
                           "scenario = (capacity, policy, prefill, signals per deliverer thread, readers (thread kind, timeouts, gates), "
                           "discards, stop requests, scheduler seed/policy/change point); non-trivial = at least two threads; "
                           "distinct by the whole scenario")
+        self._constructors(ctx, res)
         self._differential(ctx, ctx.scale(20000, 400000), ctx.scale(60, 120), res)
         self._concurrent(ctx, res)
         # blocking reads released by an arrival (real threads)
@@ -459,6 +596,18 @@ class C09(Prop):
         res = Result()
         from harness.props import c09_conc as C
         found, lines_acc = {}, []
+        # the oracle alone, on the real code: constructor family at full size (every k), then the disagreeing constructor cases
+        full = Ctx(ctx.prop_id, "thorough", ctx.seed)
+        self._constructors(full, res)
+        res.broken = []
+        for b in broken:
+            if b.case and "ctor" in b.case:
+                c = b.case["ctor"]
+                clause = _oracle(c["cap"], c["policy"], _run_impl(c["cap"], c["policy"], _unrle(c["rle"]), 0, way=c["way"])[2], 0)
+                if clause:
+                    res.failures.append(Failure(f"queue:{clause}", f"{c['label']}: {clause}", {"kind": "ctor", **c}))
+        if res.failures:
+            return res
         # the disagreeing concurrent cases, then the systematic concurrent families with more repetitions
         self._conc_batch([b.case["conc"] for b in broken if b.case and "conc" in b.case], res, found, lines_acc, "search_cases")
         if not found:
@@ -503,6 +652,15 @@ class C09(Prop):
         return res
 
     def replay(self, ctx: Ctx, rp: dict):
+        if rp.get("kind") == "ctor":
+            try:
+                live = _make_rx(rp["way"])._queue.maxlen
+            except Exception as e:  # noqa
+                return Failure(f"ctor:constructor-refuses:{type(e).__name__}", f"{rp['label']}: {e!r}", rp)
+            if live != rp["cap"] and rp.get("pre") == "capacity-not-as-configured":
+                return Failure("ctor:capacity-not-as-configured", f"{rp['label']}: configured {rp['cap']}, bounded by {live}", rp)
+            c = _oracle(rp["cap"], rp["policy"], _run_impl(rp["cap"], rp["policy"], _unrle(rp["rle"]), 0, way=rp["way"])[2], 0)
+            return Failure(f"queue:{c}", f"{rp['label']}: {c}", rp) if c else None
         if rp.get("kind") == "conc":
             from harness.props import c09_conc as C
             verdict = [c for (c, d) in C.oracle(rp["spec"], C.run_spec(rp["spec"])) if not c.startswith("@")]
